@@ -80,7 +80,7 @@ Definition g_tx (c : cfg) (f : N) (x : cap) : bool :=
   end.
 Definition g_mp (c : cfg) (f : N) (x : cap) : bool :=
   match x with
-  | CapMP afi safi => (afi =? f) && (safi =? 1) && fam_cfg c afi && negb ((afi =? 1) && negb (c_mp4 c))
+  | CapMP afi safi => (afi =? f) && (safi =? 1) && fam_cfg c afi && negb ((afi =? 1) && negb (mp4_flag c))
   | _ => false
   end.
 
@@ -90,12 +90,12 @@ Ltac eqbs :=
   end.
 Ltac flag_step :=
   let k := fresh "k" in let x := fresh "x" in
-  intros k x; destruct x; cbn; unfold set_rx, set_tx, set_mp, fam_cfg, cfg_recv, cfg_send; eqbs; cbn;
+  intros k x; destruct x; cbn; unfold set_rx, set_tx, set_mp, fam_cfg, cfg_recv, cfg_send, mp4_flag; eqbs; cbn;
   repeat match goal with H : (_ =? _) = true |- _ => apply N.eqb_eq in H; subst end;
   cbn in *; try discriminate; try reflexivity;
   try (match goal with c : cfg |- _ => destruct (role_enabled c) end; cbn; rewrite ?orb_false_r; reflexivity);
   match goal with c : cfg |- _ =>
-    destruct (c_v4 c), (c_v6 c), (c_apr4 c), (c_aps4 c), (c_apr6 c), (c_aps6 c), (c_mp4 c)
+    destruct (c_v4 c), (c_v6 c), (c_apr4 c), (c_aps4 c), (c_apr6 c), (c_aps6 c), (c_mp4 c), (c_nx4 c)
   end; cbn; rewrite ?orb_false_r, ?orb_true_r; try reflexivity.
 
 Lemma caps_rx4 : forall c o, n_rx4 (k_neg (process_caps c o)) = existsb (g_rx c 1) (o_caps o).
@@ -120,7 +120,7 @@ Ltac ours :=
   let c := fresh "c" in
   intro c; unfold sent_open, add_path_cap; cbn [o_caps];
   repeat rewrite existsb_app';
-  destruct (c_v4 c), (c_v6 c), (c_apr4 c), (c_aps4 c), (c_apr6 c), (c_aps6 c), (c_mp4 c);
+  destruct (c_v4 c), (c_v6 c), (c_apr4 c), (c_aps4 c), (c_apr6 c), (c_aps6 c), (c_mp4 c), (c_nx4 c);
   destruct (ebgp c && role_enabled c); cbn; reflexivity.
 
 Lemma ours_asn4 : forall c, adv_asn4 (o_caps (sent_open c)) = true.
@@ -133,18 +133,18 @@ Lemma ours_rx6 : forall c, adv_ap_recv (o_caps (sent_open c)) 2 = c_v6 c && c_ap
 Proof. unfold adv_ap_recv. ours. Qed.
 Lemma ours_tx6 : forall c, adv_ap_send (o_caps (sent_open c)) 2 = c_v6 c && c_aps6 c.
 Proof. unfold adv_ap_send. ours. Qed.
-Lemma ours_mp4 : forall c, adv_mp (o_caps (sent_open c)) 1 = c_v4 c && c_mp4 c.
+Lemma ours_mp4 : forall c, adv_mp (o_caps (sent_open c)) 1 = c_v4 c && (c_nx4 c || c_mp4 c).
 Proof. unfold adv_mp. ours. Qed.
 Lemma ours_mp6 : forall c, adv_mp (o_caps (sent_open c)) 2 = c_v6 c.
 Proof. unfold adv_mp. ours. Qed.
 
 Ltac theirs A h :=
   rewrite <- (existsb_and_const A h); apply existsb_ext';
-  let x := fresh "x" in intro x; destruct x; cbn; unfold fam_cfg, cfg_recv, cfg_send; try reflexivity;
+  let x := fresh "x" in intro x; destruct x; cbn; unfold fam_cfg, cfg_recv, cfg_send, mp4_flag; try reflexivity;
   eqbs; cbn; repeat match goal with H : (_ =? _) = true |- _ => apply N.eqb_eq in H; subst end;
   cbn in *; try discriminate;
   match goal with c : cfg |- _ =>
-    destruct (c_v4 c), (c_v6 c), (c_apr4 c), (c_aps4 c), (c_apr6 c), (c_aps6 c), (c_mp4 c)
+    destruct (c_v4 c), (c_v6 c), (c_apr4 c), (c_aps4 c), (c_apr6 c), (c_aps6 c), (c_mp4 c), (c_nx4 c)
   end; reflexivity.
 
 Lemma g_rx4_spec : forall c l, existsb (g_rx c 1) l = (c_v4 c && c_apr4 c) && adv_ap_send l 1.
@@ -159,9 +159,9 @@ Proof. intros c l. unfold adv_ap_send.
 Lemma g_tx6_spec : forall c l, existsb (g_tx c 2) l = (c_v6 c && c_aps6 c) && adv_ap_recv l 2.
 Proof. intros c l. unfold adv_ap_recv.
   theirs (c_v6 c && c_aps6 c) (fun x => match x with CapAddPath a s sr => (a =? 2) && (s =? 1) && ((sr =? 1) || (sr =? 3)) | _ => false end). Qed.
-Lemma g_mp4_spec : forall c l, existsb (g_mp c 1) l = (c_v4 c && c_mp4 c) && adv_mp l 1.
+Lemma g_mp4_spec : forall c l, existsb (g_mp c 1) l = (c_v4 c && (c_nx4 c || c_mp4 c)) && adv_mp l 1.
 Proof. intros c l. unfold adv_mp.
-  theirs (c_v4 c && c_mp4 c) (fun x => match x with CapMP a s => (a =? 1) && (s =? 1) | _ => false end). Qed.
+  theirs (c_v4 c && (c_nx4 c || c_mp4 c)) (fun x => match x with CapMP a s => (a =? 1) && (s =? 1) | _ => false end). Qed.
 Lemma g_mp6_spec : forall c l, existsb (g_mp c 2) l = c_v6 c && adv_mp l 2.
 Proof. intros c l. unfold adv_mp.
   theirs (c_v6 c) (fun x => match x with CapMP a s => (a =? 2) && (s =? 1) | _ => false end). Qed.
